@@ -5,7 +5,7 @@ Driver handler for the inheritance model: `inh <op> …`
 
 Token grammar (one token per field):
 ```
-level  := "L" inh sig attrs "[" node* "]"
+level  := "L" inh sig attrs bufnames buflines "[" node* "]"   (buffered named blocks `name/name…`, buffered anonymous-block lines `l,l…`, `-` = none)
 inh    := "N" | "S" | "D" | "Z"                 (none, static, dynamic, dynamic evaluating to None)
 sig    := "-" | name ":" (val | "~") { "/" … }   (`<%page args>`; `~` = no default)
 attrs  := "-" | name ":" val { "/" … }
@@ -117,11 +117,13 @@ def parseNodes : Nat → List String → Option (List Node × List String)
 def parseLevels : Nat → List String → Option (List Level)
   | 0, _ => none
   | _ + 1, [] => some []
-  | f + 1, "L" :: inh :: sig :: attrs :: "[" :: rest => do
+  | f + 1, "L" :: inh :: sig :: attrs :: bufs :: bufl :: "[" :: rest => do
     let inh ← decInh inh; let sig ← decSig sig; let attrs ← decKws attrs
+    let bufs ← if bufs == "-" then pure [] else (bufs.splitOn "/").mapM decStr
+    let bufl ← decVals bufl
     let (nodes, r) ← parseNodes rest.length rest
     let ls ← parseLevels f r
-    pure ({ nodes := nodes, attrs := attrs, inherit := inh, sig := sig } :: ls)
+    pure ({ nodes := nodes, attrs := attrs, inherit := inh, sig := sig, buffered := bufs, bufferedAnon := bufl } :: ls)
   | _ + 1, _ => none
 
 def encKws (l : List (Name × Val)) : String :=
